@@ -1,5 +1,593 @@
-"""Kani units (filled in later)."""
+"""Kani units: bounded/complete model checking of small, loop-free or fixed-size pieces of /repo (DESIGN.md sections 2.1, 4).
+
+A unit lives in  <here>/kani/<K-NAME>/  and consists of
+  unit.json    what to extract from the repository, how the generated crate is laid out, the harness list
+  harness.rs   the #[kani::proof] functions (written by hand; they only *call* the extracted code)
+  *.rs shims   optional hand-written stand-ins for non-std dependencies (every one is listed as trusted)
+
+`run_kani_unit(here, repo, name, tier)` regenerates a crate under <here>/build/kani/<K-NAME>/ from the CURRENT text of
+`repo` (never from a cached copy), runs `cargo kani --harness <h>` once per harness (at most 3 cargo-kani processes at a
+time on the whole machine), parses CBMC's per-check results and classifies:
+
+  ok         every check of every harness SUCCESS, every cover SATISFIED
+  violation  at least one check FAILED (a concrete counterexample is attached by a --concrete-playback=print re-run)
+  undecided  extraction failed, the crate does not compile, timeout, out of memory, an unwinding assertion failed
+             (bound too small), a cover is unreachable / missing (vacuous harness), no checks were produced
+
+See kani/README.md for the file formats.
+"""
+import concurrent.futures as cf
+import fcntl
+import hashlib
+import json
+import os
+import re
+import resource
+import shutil
+import signal
+import subprocess
+import time
+
+from . import extract as X
+from . import rewrite as R
+from .lexer import LexError
+
+MAX_PROCS = 3  # machine-wide limit of concurrently running cargo-kani processes
+SLOT_DIR = "/tmp/KANI/slots"
+MEM_LIMIT_BYTES = 24 * 1024 ** 3  # address-space limit per cargo-kani process tree member (CBMC reports "out of memory")
+
+
+class KaniUnitError(Exception):
+    pass
+
+
+# ----------------------------------------------------------------------------------------------------------------------
+# machine-wide slots (flock), so that several `vx check` processes together never run more than MAX_PROCS cargo-kani
+class _Slot:
+    def __enter__(self):
+        os.makedirs(SLOT_DIR, exist_ok=True)
+        self.fd = None
+        while self.fd is None:
+            for k in range(MAX_PROCS):
+                fd = os.open(os.path.join(SLOT_DIR, "slot%d.lock" % k), os.O_CREAT | os.O_RDWR, 0o666)
+                try:
+                    fcntl.flock(fd, fcntl.LOCK_EX | fcntl.LOCK_NB)
+                    self.fd = fd
+                    break
+                except OSError:
+                    os.close(fd)
+            if self.fd is None:
+                time.sleep(0.5)
+        return self
+
+    def __exit__(self, *a):
+        try:
+            fcntl.flock(self.fd, fcntl.LOCK_UN)
+        finally:
+            os.close(self.fd)
+
+
+# ----------------------------------------------------------------------------------------------------------------------
+# generation
+def _sha(s):
+    return hashlib.sha256(s.encode()).hexdigest()
+
+
+def _line_of(src, off):
+    return src.count("\n", 0, off) + 1
+
+
+def _item_text(it):
+    """verbatim text of an item INCLUDING its attributes (#[repr(C, packed)], #[derive(..)], #[inline] matter to Kani)"""
+    return it.src[it.attrs_start:it.end]
+
+
+def _fns_inside(repo, relpath, it):
+    """fn items lying inside the span of item `it` (an impl / trait block)"""
+    _, items = X.items_of(repo, relpath)
+    return [f for f in items if f.kind == "fn" and f.start >= it.start and f.end <= it.end and f is not it]
+
+
+_RULES = {"R1": R.r1_async, "R3": R.r3_logs}
+
+
+def _extract_source(repo, spec, gsubst, log):
+    rel = spec["file"]
+    kind = spec["kind"]
+    name = spec["name"]
+    cont = spec.get("container")
+    it = X.find_item(repo, rel, kind, name, cont)
+    raw = _item_text(it)
+    a, b = _line_of(it.src, it.attrs_start), _line_of(it.src, it.end)
+    text = raw
+    fired = {}
+    for rn in spec.get("rules", []):
+        if rn not in _RULES:
+            raise KaniUnitError("unknown rewrite rule %s (available for Kani units: %s)" % (rn, sorted(_RULES)))
+        text = _RULES[rn](text, fired)
+    for s in list(spec.get("subst", [])) + list(gsubst):
+        text = R.subst(text, s["from"], s["to"], fired, must=not s.get("optional", s in gsubst))
+    for k, v in fired.items():
+        log.append("%s:%s %s: %s x%d" % (rel, kind, name, k, v))
+    ident = "%s::%s%s%s" % (rel, (cont + "::") if cont else "", "" if kind == "fn" else kind + " ", name)
+    rec = {"id": ident, "kind": kind, "name": name, "container": cont, "path": rel, "lines": [a, b], "sha256": _sha(raw),
+           "rewritten": text != raw, "observe_only": bool(spec.get("observe_only"))}
+    fns = []
+    if kind == "fn":
+        fns.append({"function": ident, "source": "%s:%d-%d" % (rel, a, b), "sha256": _sha(raw), "under_contract": True})
+    elif kind in ("impl", "trait"):
+        for f in _fns_inside(repo, rel, it):
+            ft = _item_text(f)
+            fa, fb = _line_of(f.src, f.attrs_start), _line_of(f.src, f.end)
+            fns.append({"function": "%s::%s::%s" % (rel, " ".join(it.name.split()), f.name), "source": "%s:%d-%d" % (rel, fa, fb),
+                        "sha256": _sha(ft), "under_contract": True})
+    return text, rec, fns
+
+
+def _read(p):
+    with open(p) as f:
+        return f.read()
+
+
+def generate(here, repo, name):
+    """-> (crate_dir, meta).  Raises KaniUnitError / ExtractError / RewriteError / LexError / OSError."""
+    X._cache.clear()  # always re-read the repository: `repo` may be a scratch copy that was edited since the last call
+    udir = os.path.join(here, "kani", name)
+    try:
+        cfg = json.loads(_read(os.path.join(udir, "unit.json")))
+    except (OSError, ValueError) as e:
+        raise KaniUnitError("cannot read %s/unit.json: %s" % (udir, e))
+    crate = cfg.get("crate", name.lower().replace("-", "_"))
+    out = os.path.join(here, "build", "kani", name)
+    os.makedirs(os.path.join(out, "src"), exist_ok=True)
+    os.makedirs(os.path.join(out, ".cargo"), exist_ok=True)
+    os.makedirs(os.path.join(out, "logs"), exist_ok=True)
+
+    log = []
+    items = []
+    functions = []
+    gsubst = cfg.get("gsubst", [])
+    # modules, in declared order; "" is the crate root
+    mods = []
+    for m in cfg.get("modules", []):
+        mods.append({"name": m["name"], "preamble": m.get("preamble", []), "shims": m.get("shims", []), "parts": []})
+
+    def mod_of(n):
+        for m in mods:
+            if m["name"] == n:
+                return m
+        m = {"name": n, "preamble": [], "shims": [], "parts": []}
+        mods.append(m)
+        return m
+
+    for spec in cfg.get("sources", []):
+        text, rec, fns = _extract_source(repo, spec, gsubst, log)
+        items.append(rec)
+        functions += fns
+        if spec.get("observe_only"):
+            continue  # recorded (path, span, hash) but not copied: the harness links the real crate through a path dependency
+        mod_of(spec.get("module", ""))["parts"].append((spec, text, rec))
+
+    harness_mod = cfg.get("harness_module", "")
+    hsrc = _read(os.path.join(udir, cfg.get("harness_file", "harness.rs")))
+
+    def render_module(m):
+        lines = []
+        for p in m["preamble"]:
+            lines.append(p)
+        for sh in m["shims"]:
+            lines.append("// ---- shim %s (hand-written, trusted; see unit.json `trusted`) ----" % sh)
+            lines.append(_read(os.path.join(udir, sh)).rstrip("\n"))
+            lines.append("// ---- end shim %s ----" % sh)
+        open_cont = None
+        for spec, text, rec in m["parts"]:
+            cont = spec.get("container") if spec["kind"] in ("fn", "const", "type") else None
+            if cont != open_cont:
+                if open_cont is not None:
+                    lines.append("}")
+                if cont is not None:
+                    lines.append("%s {" % cont)
+                open_cont = cont
+            lines.append("// vx-item %s @ %s:%d-%d sha256=%s%s" % (rec["id"], rec["path"], rec["lines"][0], rec["lines"][1], rec["sha256"][:16],
+                                                                 " (rewritten, see trusted)" if rec["rewritten"] else ""))
+            lines.append(text)
+            lines.append("// vx-end")
+        if open_cont is not None:
+            lines.append("}")
+        if m["name"] == harness_mod:
+            lines.append("#[cfg(kani)]")
+            lines.append("mod kani_harness {")
+            lines.append("#[allow(unused_imports)] use super::*;")
+            lines.append("// ---- harness.rs ----")
+            lines.append(hsrc.rstrip("\n"))
+            lines.append("// ---- end harness.rs ----")
+            lines.append("}")
+        return lines
+
+    if harness_mod and not any(m["name"] == harness_mod for m in mods):
+        mod_of(harness_mod)
+    if not harness_mod and not any(m["name"] == "" for m in mods):
+        mods.insert(0, {"name": "", "preamble": [], "shims": [], "parts": []})
+
+    # nest modules a::b
+    tree = {}
+
+    def node(path):
+        cur = tree
+        for seg in path:
+            cur = cur.setdefault("children", {}).setdefault(seg, {})
+        return cur
+
+    order = []
+    for m in mods:
+        path = [s for s in m["name"].split("::") if s]
+        n = node(path)
+        n.setdefault("mods", []).append(m)
+        order.append(path)
+
+    def emit(n, depth):
+        out_l = []
+        for m in n.get("mods", []):
+            out_l += render_module(m)
+        for seg, ch in n.get("children", {}).items():
+            out_l.append("pub mod %s {" % seg)
+            out_l += emit(ch, depth + 1)
+            out_l.append("}")
+        return out_l
+
+    header = ["// GENERATED by vxlib/kani.py for unit %s from %s -- do not edit; regenerated on every run." % (name, repo),
+              "#![allow(dead_code, unused_imports, unused_variables, unused_mut, unused_macros, non_snake_case, clippy::all)]"]
+    for ln in cfg.get("crate_attrs", []):
+        header.append(ln)
+    lib = "\n".join(header + emit(tree, 0)) + "\n"
+    with open(os.path.join(out, "src", "lib.rs"), "w") as f:
+        f.write(lib)
+
+    deps = []
+    path_deps = cfg.get("path_deps", {})
+    for dn, rel in path_deps.items():
+        p = os.path.join(repo, rel)
+        if not os.path.isdir(p):
+            raise KaniUnitError("path dependency %s: %s does not exist" % (dn, p))
+        deps.append('%s = { path = "%s" }' % (dn, p))
+    cargo = ["[package]", 'name = "%s"' % crate, 'version = "0.0.0"', 'edition = "2021"', "publish = false", "", "[lib]", 'path = "src/lib.rs"', "",
+             "[dependencies]"] + deps + ["", "[workspace]", "", "[lints.rust]", "unexpected_cfgs = { level = \"allow\", check-cfg = ['cfg(kani)'] }", ""]
+    with open(os.path.join(out, "Cargo.toml"), "w") as f:
+        f.write("\n".join(cargo))
+    with open(os.path.join(out, ".cargo", "config.toml"), "w") as f:
+        f.write("[net]\noffline = true\n")
+    lock = os.path.join(out, "Cargo.lock")
+    if path_deps:
+        src_lock = os.path.join(repo, "Cargo.lock")
+        if not os.path.exists(src_lock):
+            raise KaniUnitError("%s missing (needed to pin the path dependencies' own dependencies offline)" % src_lock)
+        shutil.copyfile(src_lock, lock)
+    elif os.path.exists(lock):
+        os.remove(lock)
+
+    # static vacuity rule: every #[kani::proof] function must contain a kani::cover!
+    hfns = _harness_fns(hsrc)
+    full_prefix = (harness_mod + "::" if harness_mod else "") + "kani_harness::"  # Kani's fully-qualified harness names omit the crate
+    meta = {"cfg": cfg, "crate": crate, "dir": out, "lib": lib, "items": items, "functions": functions, "rewrites": log, "harness_fns": hfns,
+            "full_prefix": full_prefix, "udir": udir}
+    return out, meta
+
+
+def _harness_fns(hsrc):
+    """name -> body text of every fn in harness.rs carrying #[kani::proof]"""
+    st = X.sig(X.lex(hsrc))
+    items = []
+    X._scan_items(hsrc, st, 0, len(st), "harness.rs", [], items)
+    out = {}
+    for it in items:
+        if it.kind != "fn":
+            continue
+        attrs = hsrc[it.attrs_start:it.header_start]
+        if "kani::proof" in attrs:
+            out[it.name] = {"text": hsrc[it.attrs_start:it.end], "has_cover": "kani::cover!" in hsrc[it.body_open:it.end], "attrs": attrs}
+    return out
+
+
+# ----------------------------------------------------------------------------------------------------------------------
+# running
+def _limits():
+    os.setsid()
+    try:
+        resource.setrlimit(resource.RLIMIT_AS, (MEM_LIMIT_BYTES, MEM_LIMIT_BYTES))
+    except (ValueError, OSError):
+        pass
+
+
+def _run(cmd, cwd, timeout, target_dir):
+    env = dict(os.environ, CARGO_NET_OFFLINE="true", CARGO_TERM_COLOR="never", NO_COLOR="1")
+    env.pop("RUSTFLAGS", None)
+    t0 = time.time()
+    with _Slot():
+        p = subprocess.Popen(cmd, cwd=cwd, env=env, stdout=subprocess.PIPE, stderr=subprocess.PIPE, text=True, preexec_fn=_limits)
+        try:
+            so, se = p.communicate(timeout=timeout)
+            to = False
+        except subprocess.TimeoutExpired:
+            try:
+                os.killpg(p.pid, signal.SIGKILL)  # the whole group: cargo, kani-driver, cbmc
+            except OSError:
+                pass
+            so, se = p.communicate()
+            to = True
+    return {"rc": p.returncode, "stdout": so or "", "stderr": se or "", "timeout": to, "wall_s": time.time() - t0}
+
+
+_CHECK = re.compile(r"^Check (\d+): (\S+)\s*\n\s*- Status: (\w+)\s*\n\s*- Description: \"(.*)\"\s*\n(?:\s*- Location: (.*)\n)?", re.M)
+
+
+def parse_output(text):
+    """per-check results of `--output-format=regular`"""
+    checks = []
+    for m in _CHECK.finditer(text):
+        cid = m.group(2)
+        loc = (m.group(5) or "").strip()
+        fn = None
+        file_line = None
+        lm = re.match(r"(\S+?):(\d+):(\d+)(?: in function (.+))?$", loc)
+        if lm:
+            file_line = (lm.group(1), int(lm.group(2)))
+            fn = lm.group(4)
+        else:
+            lm = re.match(r"(?:Unknown file|<builtin-library-[^>]*>)(?: in function (.+))?$", loc)
+            if lm:
+                fn = lm.group(1)
+        parts = cid.split(".")
+        kind = parts[-2] if len(parts) >= 2 else cid
+        checks.append({"n": int(m.group(1)), "id": cid, "status": m.group(3), "description": m.group(4), "location": loc, "function": fn,
+                       "file_line": file_line, "class": kind})
+    res = {"checks": checks}
+    m = re.search(r"VERIFICATION:- (\w+)", text)
+    res["verdict"] = m.group(1) if m else None
+    m = re.search(r"Verification Time: ([0-9.]+)s", text)
+    res["time_s"] = float(m.group(1)) if m else 0.0
+    m = re.search(r"\*\* (\d+) of (\d+) failed", text)
+    res["summary_failed"] = (int(m.group(1)), int(m.group(2))) if m else None
+    m = re.search(r"\*\* (\d+) of (\d+) cover properties satisfied", text)
+    res["summary_cover"] = (int(m.group(1)), int(m.group(2))) if m else None
+    res["oom"] = bool(re.search(r"[Oo]ut of memory|std::bad_alloc|memory exhausted|Cannot allocate memory|SIGKILL|signal: 9", text))
+    return res
+
+
+def _is_cover(c):
+    return c["class"] == "cover" or c["status"] in ("SATISFIED", "UNSATISFIABLE", "UNREACHABLE") and ".cover." in c["id"]
+
+
+def _is_unwind(c):
+    return c["class"] == "unwind" or "unwinding assertion" in c["description"]
+
+
+def _playback_block(text):
+    m = re.search(r"Concrete playback unit test for `[^`]*`:\s*\n```\n(.*?)\n```", text, re.S)
+    if m:
+        return m.group(1)
+    m = re.search(r"(#\[test\]\s*\nfn kani_concrete_playback.*?\n\})", text, re.S)
+    return m.group(1) if m else None
+
+
+def _decode_playback(block):
+    """the `// value` comments Kani prints next to each byte vector, in harness order of kani::any() calls"""
+    vals = []
+    if not block:
+        return vals
+    for m in re.finditer(r"^\s*//\s*(.+?)\s*\n\s*vec!\[([^\]]*)\]", block, re.M):
+        vals.append({"value": m.group(1), "bytes": [int(x) for x in re.findall(r"\d+", m.group(2))]})
+    return vals
+
+
+def _item_at(lib_lines, ln):
+    """the `// vx-item` header enclosing generated line ln, if any"""
+    for k in range(min(ln, len(lib_lines)) - 1, -1, -1):
+        s = lib_lines[k]
+        if s.startswith("// vx-end") and k < ln - 1:
+            return None
+        m = re.match(r"// vx-item (.+?) @ (\S+):(\d+)-(\d+)", s)
+        if m:
+            off = ln - (k + 2)  # first text line of the item is generated line k+2
+            return {"id": m.group(1), "path": m.group(2), "lines": [int(m.group(3)), int(m.group(4))], "src_line": int(m.group(3)) + off, "gen_start": k + 2}
+    return None
+
+
+def run_harness(meta, h, tier):
+    cfg = meta["cfg"]
+    name = h["name"]
+    over = h.get("thorough", {}) if tier == "thorough" else {}
+    unwind = over.get("unwind", h.get("unwind"))
+    timeout = over.get("timeout", h.get("timeout", 240))
+    full = meta["full_prefix"] + name
+    flags = list(cfg.get("kani_flags", [])) + list(h.get("kani_flags", []))
+    base = ["cargo", "kani", "--output-format=regular", "--harness", full, "--exact"] + flags
+    if unwind is not None:
+        base += ["--unwind", str(unwind)]
+    cmd_s = "cd %s && CARGO_NET_OFFLINE=true %s" % (meta["dir"], " ".join(base))
+    r = _run(base, meta["dir"], timeout, None)
+    text = r["stdout"] + "\n" + r["stderr"]
+    with open(os.path.join(meta["dir"], "logs", name + ".txt"), "w") as f:
+        f.write("$ %s\n# rc=%s timeout=%s wall=%.1fs\n" % (cmd_s, r["rc"], r["timeout"], r["wall_s"]))
+        f.write(text)
+    res = parse_output(text)
+    res.update({"harness": name, "cmd": cmd_s, "rc": r["rc"], "timeout": r["timeout"], "wall_s": round(r["wall_s"], 1), "playback": None,
+                "unwind": unwind, "timeout_s": timeout, "raw_tail": text[-3000:]})
+    failed = [c for c in res["checks"] if c["status"] == "FAILED" and not _is_unwind(c)]
+    if failed and not r["timeout"]:
+        pb = base + ["-Z", "concrete-playback", "--concrete-playback=print"]
+        r2 = _run(pb, meta["dir"], timeout, None)
+        t2 = r2["stdout"] + "\n" + r2["stderr"]
+        with open(os.path.join(meta["dir"], "logs", name + ".playback.txt"), "w") as f:
+            f.write("$ %s\n# rc=%s timeout=%s wall=%.1fs\n" % (" ".join(pb), r2["rc"], r2["timeout"], r2["wall_s"]))
+            f.write(t2)
+        blk = _playback_block(t2)
+        res["playback"] = {"cmd": " ".join(pb), "unit_test": blk, "values_in_order_of_kani_any_calls": _decode_playback(blk),
+                           "note": None if blk else ("concrete playback produced no test (timeout=%s rc=%s)" % (r2["timeout"], r2["rc"]))}
+    return res
 
 
 def run_kani_unit(here, repo, name, tier):
-    return {"unit": name, "status": "undecided", "undecided_reason": "kani runner not built", "failures": [], "obligations": 0, "discharged": 0}
+    t0 = time.time()
+    r = {"unit": name, "status": "ok", "undecided_reason": None, "failures": [], "obligations": 0, "discharged": 0, "trusted": [], "samples": [],
+         "bounded": [], "cmd": "", "solver_ms": 0, "functions": [], "harnesses": [], "covers": {"expected": 0, "satisfied": 0}}
+    reasons = []
+
+    def undecided(why):
+        reasons.append(why)
+
+    try:
+        out, meta = generate(here, repo, name)
+    except (KaniUnitError, X.ExtractError, R.RewriteError, LexError, OSError, KeyError) as e:
+        r["status"] = "undecided"
+        r["undecided_reason"] = "generation failed (%s): %s" % (type(e).__name__, e)
+        return r
+    cfg = meta["cfg"]
+    r["generated"] = os.path.join(out, "src", "lib.rs")
+    r["functions"] = meta["functions"]
+    r["items"] = meta["items"]
+    r["props"] = cfg.get("props", [])
+    r["trusted"] = list(cfg.get("trusted", [])) + ["rewrite: " + x for x in meta["rewrites"]] + ["Kani 0.68 / CBMC 6.11 / rustc MIR semantics as modelled by Kani are trusted"]
+    lib_lines = meta["lib"].split("\n")
+
+    hs = []
+    for h in cfg.get("harnesses", []):
+        if h.get("tier", "quick") == "thorough" and tier != "thorough":
+            continue
+        hs.append(h)
+    declared = set(h["name"] for h in cfg.get("harnesses", []))
+    for hn, hf in meta["harness_fns"].items():
+        if hn not in declared:
+            undecided("harness.rs defines #[kani::proof] fn %s that unit.json does not list" % hn)
+    for h in hs:
+        hf = meta["harness_fns"].get(h["name"])
+        if hf is None:
+            undecided("harness %s listed in unit.json is not a #[kani::proof] fn in harness.rs" % h["name"])
+        elif not hf["has_cover"]:
+            undecided("harness %s contains no kani::cover!(..) reachability check" % h["name"])
+    if not hs:
+        undecided("no harness selected for tier %s" % tier)
+    if reasons:
+        r["status"] = "undecided"
+        r["undecided_reason"] = "; ".join(reasons)
+        return r
+
+    # first harness alone (it compiles the crate and its dependencies), the others up to MAX_PROCS at a time
+    results = []
+    first = run_harness(meta, hs[0], tier)
+    results.append(first)
+    compile_failed = first["verdict"] is None and not first["timeout"] and not first["checks"]
+    if not compile_failed and len(hs) > 1:
+        with cf.ThreadPoolExecutor(MAX_PROCS) as ex:
+            results += list(ex.map(lambda h: run_harness(meta, h, tier), hs[1:]))
+    elif compile_failed:
+        for h in hs[1:]:
+            results.append(None)
+
+    cmds = []
+    for h, res in zip(hs, results):
+        if res is None:
+            continue
+        cmds.append(res["cmd"])
+        complete = bool(h.get("complete"))
+        tags = h.get("props") or cfg.get("props") or None
+        checks = [c for c in res["checks"] if not _is_cover(c)]
+        covers = [c for c in res["checks"] if _is_cover(c)]
+        failed = [c for c in checks if c["status"] == "FAILED"]
+        unwind_failed = [c for c in failed if _is_unwind(c)]
+        real_failed = [c for c in failed if not _is_unwind(c)]
+        # UNREACHABLE = the check sits in code CBMC proved dead (e.g. the panic arm of a match): discharged, counted separately
+        n_ok = sum(1 for c in checks if c["status"] in ("SUCCESS", "UNREACHABLE"))
+        n_dead = sum(1 for c in checks if c["status"] == "UNREACHABLE")
+        hstat = "ok"
+        why = None
+        if res["timeout"]:
+            hstat, why = "undecided", "timeout after %ss" % res["timeout_s"]
+        elif res["oom"] and res["verdict"] != "SUCCESSFUL" and not real_failed:
+            hstat, why = "undecided", "out of memory"
+        elif not res["checks"] or res["verdict"] is None:
+            hstat, why = "undecided", "cargo kani produced no verification result (compile error or tool failure, rc=%s): %s" % (res["rc"], _errors_of(res["raw_tail"]))
+        elif real_failed:
+            hstat = "violation"
+        elif unwind_failed:
+            hstat, why = "undecided", "unwinding assertion failed: unwind bound %s is too small for %s" % (res["unwind"], sorted(set(c["function"] or "?" for c in unwind_failed))[:4])
+        elif any(c["status"] not in ("SUCCESS", "UNREACHABLE") for c in checks):
+            bad = [c for c in checks if c["status"] not in ("SUCCESS", "UNREACHABLE")][:3]
+            hstat, why = "undecided", "checks with status %s: %s" % (sorted(set(c["status"] for c in bad)), [c["id"] for c in bad])
+        elif res["verdict"] != "SUCCESSFUL":
+            hstat, why = "undecided", "verdict %s without a failed check" % res["verdict"]
+        r["covers"]["expected"] += len(covers)
+        r["covers"]["satisfied"] += sum(1 for c in covers if c["status"] == "SATISFIED")
+        if hstat == "ok":
+            if not covers:
+                hstat, why = "undecided", "no cover check reported: harness may be vacuous"
+            elif any(c["status"] != "SATISFIED" for c in covers):
+                bad = [c for c in covers if c["status"] != "SATISFIED"]
+                hstat, why = "undecided", "cover not satisfied (vacuous harness or contradictory kani::assume): %s" % [(c["description"], c["status"]) for c in bad][:4]
+        r["solver_ms"] += int(res["time_s"] * 1000)
+        summary = {"harness": h["name"], "complete": complete, "status": hstat, "why": why, "checks": len(checks), "success": n_ok, "in_dead_code": n_dead, "covers": len(covers),
+                   "covers_satisfied": sum(1 for c in covers if c["status"] == "SATISFIED"), "cbmc_s": res["time_s"], "wall_s": res["wall_s"],
+                   "unwind": res["unwind"], "claim": h.get("claim"), "props": tags}
+        r["harnesses"].append(summary)
+        if complete:
+            if hstat in ("ok", "violation"):
+                r["obligations"] += len(checks)
+                r["discharged"] += n_ok
+        else:
+            r["bounded"].append({"harness": "%s/%s" % (name, h["name"]), "bound": h.get("bound", "unwind %s" % res["unwind"]), "checks": len(checks), "status": hstat,
+                                 "claim": h.get("claim")})
+        if hstat == "undecided":
+            undecided("%s: %s" % (h["name"], why))
+        for c in real_failed:
+            site = ""
+            fn_id = c["function"] or h["name"]
+            source = None
+            if c["file_line"] and c["file_line"][0].endswith("lib.rs"):
+                ln = c["file_line"][1]
+                if 1 <= ln <= len(lib_lines):
+                    site = lib_lines[ln - 1].strip()
+                it = _item_at(lib_lines, ln)
+                if it:
+                    source = "%s:%d (item %s, lines %d-%d)" % (it["path"], it["src_line"], it["id"], it["lines"][0], it["lines"][1])
+            pb = res["playback"] or {}
+            vo = {"check": c["id"], "status": c["status"], "description": c["description"], "location": c["location"], "harness": h["name"],
+                  "harness_claim": h.get("claim"), "complete": complete, "bound": None if complete else h.get("bound"),
+                  "counterexample": pb.get("values_in_order_of_kani_any_calls"), "concrete_playback_unit_test": pb.get("unit_test"),
+                  "playback_cmd": pb.get("cmd"), "playback_note": pb.get("note"), "cmd": res["cmd"],
+                  "all_failed_checks_of_harness": [{"id": x["id"], "description": x["description"], "location": x["location"]} for x in real_failed][:12]}
+            r["failures"].append({"id": "%s/%s | %s | %s" % (name, h["name"], c["class"], c["description"][:160]), "function": "%s/%s" % (name, fn_id),
+                                  "kind": c["class"], "clause": c["description"][:300], "clause_origin": "%s harness %s" % (name, h["name"]), "site": site[:300],
+                                  "source": source, "tags": tags, "verifier_output": vo})
+        # samples: the harness claim and the first few written-out checks
+        if len(r["samples"]) < 6:
+            ex_checks = [c for c in checks if c["file_line"] and c["file_line"][0].endswith("lib.rs")][:2]
+            r["samples"].append({"harness": "%s/%s" % (name, h["name"]), "complete": complete, "claim": h.get("claim"),
+                                 "checks": [{"id": c["id"], "description": c["description"], "location": c["location"], "status": c["status"]} for c in ex_checks],
+                                 "source": (meta["harness_fns"].get(h["name"]) or {}).get("text", "")[:1200]})
+    r["cmd"] = "; ".join(cmds)
+    r["wall_s"] = round(time.time() - t0, 1)
+    # de-duplicate failures that several harnesses report identically
+    seen = set()
+    uniq = []
+    for fl in r["failures"]:
+        if fl["id"] in seen:
+            continue
+        seen.add(fl["id"])
+        uniq.append(fl)
+    r["failures"] = uniq
+    if r["failures"]:
+        r["status"] = "violation"
+        r["undecided_reason"] = "; ".join(reasons) if reasons else None
+    elif reasons:
+        r["status"] = "undecided"
+        r["undecided_reason"] = "; ".join(reasons)
+    elif r["obligations"] == 0 and not r["bounded"]:
+        r["status"] = "undecided"
+        r["undecided_reason"] = "no obligations were generated"
+    return r
+
+
+def _errors_of(text):
+    errs = re.findall(r"^(error(?:\[E\d+\])?: .*(?:\n\s+-->.*)?)", text, re.M)
+    if errs:
+        return " | ".join(e.replace("\n", " ") for e in errs[:4])[:900]
+    return text[-600:]
